@@ -84,6 +84,13 @@ def run(ctx):
                 cfg["detect_batch"] = int(crng.choice([2, 3]))
             hist = fam.history(crng, cfg, int(crng.choice([6, 10, 14])))
             batches = [h[0] for h in hist]; seeds = [h[1] for h in hist]
+            if name != "NNDVI" and k % 6 == 5:
+                # a long drift-free history of LARGE batches (size-dependent shortcuts, caps on the accumulated
+                # reference, sampling of big inputs): 6 batches of 2500-4000 rows from one distribution
+                d = batches[0].shape[1]
+                batches = [np.round(crng.normal(0, 1, (int(crng.integers(2500, 4001)), d)) * 64) / 64 for _ in range(6)]
+                seeds = [int(crng.integers(0, 2**31)) for _ in batches]
+                ctx.count(f"{name}:large-batch-cases")
             runner = {"HDDDM": run_hdm, "CDBD": run_hdm, "KdqTreeBatch": run_kdq, "NNDVI": run_nndvi}[name]
             try:
                 st0, ob0 = runner(fam, cfg, batches, seeds)
